@@ -12,7 +12,9 @@ from __future__ import annotations
 
 from .. import nf
 from ..model import AnalysisError
-from ..values import ExtObj, FuncV, Inst, Num, TupV
+from ..values import ExtObj, FuncV, Inst, LambdaV, Num, PartialV, TupV
+
+CALLABLES = (FuncV, LambdaV, PartialV)
 from .common import FC, interp, returns
 
 LEVEL = "other"
@@ -53,28 +55,25 @@ def check(ctx):
 
         return m, it_.explore(run)
 
-    def law_calls(p, func_sub):
-        return [e for e in p.events if e.kind == "int_call" and e.data["callee"] == LAW and func_sub in e.func]
 
-    it = interp(ctx, opaque={LAW})
+    it = interp(ctx)
     m, paths = run_method(it, "forecast_cum")
     n_calls = 0
+    curve = lambda arg: nf.fn("self.rf_curve", arg)
     for p in returns(paths):
-        for e in law_calls(p, "forecast_cum"):
-            n_calls += 1
-            a = e.data["args"]
-            dM = next((c for _k, c, d in p.decisions if d == "M is None"), None)
-            dT = next((c for _k, c, d in p.decisions if d == "tau is None"), None)
-            wantM = nf.sym("self.M_") if dM else nf.sym("M")
-            wantT = nf.sym("self.tau_") if dT else nf.sym("tau")
-            ok = it.to_nf(a["rf_curve"]) == nf.sym("self.rf_curve") and it.to_nf(a["time_on_production"]) == t and it.to_nf(a["M"]) == wantM and it.to_nf(a["tau"]) == wantT
-            ctx.check(
-                ok, "C05-b", m.qualname + f":law arguments [M given={not dM}, tau given={not dT}]", f"{m.file}:{e.line}",
-                "forecast_cum evaluates the law with the object's own curve, the given time, and the given (else fitted) M and tau in their own slots",
-                signature="forecast_cum binding", got={k: nf.show(it.to_nf(x), 60) for k, x in a.items()},
-            )
+        n_calls += 1
+        dM = next((c for _k, c, d in p.decisions if d == "M is None"), None)
+        dT = next((c for _k, c, d in p.decisions if d == "tau is None"), None)
+        wantM = nf.sym("self.M_") if dM else nf.sym("M")
+        wantT = nf.sym("self.tau_") if dT else nf.sym("tau")
+        v = it.to_nf(p.value) if p.value is not None else {}
+        ctx.identity(
+            "C05-b", m.qualname + f":law arguments [M given={not dM}, tau given={not dT}]", m.where(),
+            "forecast_cum returns the law M * rf_curve(time / tau) with the object's own curve, the given time, and the given (else fitted) M and tau in their own slots",
+            v, nf.mul(wantM, curve(nf.div(t, wantT))),
+        )
     # ---- fit
-    it = interp(ctx, opaque={LAW}, opaque_methods={"regularize_initial_guess"})
+    it = interp(ctx, opaque_methods={"regularize_initial_guess"})
     reg = bc.lookup("regularize_initial_guess")
     m = fc.lookup("fit")
     ctx.touch(m.qualname)
@@ -86,9 +85,10 @@ def check(ctx):
         # first guess - inside the same trace partition, so that its branches agree with fit()'s own
         cfe = [e for e in x.events if e.kind == "ext_call" and e.data["callee"] == "scipy.optimize.curve_fit"]
         rge = [e for e in x.events if e.kind == "int_call" and e.data["callee"] == reg.qualname]
-        if len(cfe) == 1 and len(rge) == 1 and isinstance(rge[0].data["args"]["guess"], TupV) and isinstance(cfe[0].data["args"].get("f"), FuncV):
+        if len(cfe) == 1 and len(rge) == 1 and isinstance(rge[0].data["args"]["guess"], TupV) and isinstance(cfe[0].data["args"].get("f"), CALLABLES):
             n = len(rge[0].data["args"]["guess"].items)
             args = [Num(nf.sym("@x"))] + [Num(nf.sym(f"@p{k}")) for k in range(n)]
+            x.log("marker", cfe[0].node, name="model evaluation")
             return x.call(cfe[0].data["args"]["f"], args, {}, cfe[0].node, None)
         return None
 
@@ -129,23 +129,16 @@ def check(ctx):
         raw_guess = regs[0].data["args"]["guess"] if regs else None
         # C05-b/e the model evaluated as curve_fit evaluates it: f(x, p0[, p1])
         fv = a.get("f")
-        if not isinstance(fv, FuncV):
-            raise AnalysisError("fit: curve_fit model is not a local function")
-        mcalls = [e for e in p.events if e.kind == "int_call" and e.data["callee"] == LAW and e.func.startswith(fv.info.qualname.split("#")[0])]
+        if not isinstance(fv, CALLABLES):
+            raise AnalysisError("fit: curve_fit model is not a function, lambda or functools.partial of the package")
+        model_where = fv.info.where() if isinstance(fv, FuncV) else where
         rv = it.to_nf(p.value) if p.value is not None else {}
-        at = it.single_atom(rv)
-        okm = len(mcalls) == 1 and at is not None and at[0] == "fn" and at[1] == LAW
-        got = {}
-        if okm:
-            ca = mcalls[0].data["args"]
-            got = {k: nf.show(it.to_nf(x), 60) for k, x in ca.items()}
-            wantT = nf.sym("@p1") if free_tau else nf.sym("tau")
-            okm = it.to_nf(ca["rf_curve"]) == nf.sym("self.rf_curve") and it.to_nf(ca["time_on_production"]) == nf.sym("@x") and it.to_nf(ca["M"]) == nf.sym("@p0") and it.to_nf(ca["tau"]) == wantT
-            n_calls += 1
-        ctx.check(
-            okm, "C05-b", m.qualname + f":model evaluates the law [{tag}]", fv.info.where(),
-            "called as curve_fit calls it, the fitted model returns the law with the object's curve, x as time, the first parameter as M and " + ("the second parameter as tau" if free_tau else "the tau supplied to fit()"),
-            signature="model binding", got=got,
+        wantT = nf.sym("@p1") if free_tau else nf.sym("tau")
+        n_calls += 1
+        ctx.identity(
+            "C05-b", m.qualname + f":model evaluates the law [{tag}]", model_where,
+            "called as curve_fit calls it, the fitted model returns the law M * rf_curve(x / tau) with the object's curve, x as time, the first parameter as M and " + ("the second parameter as tau" if free_tau else "the tau supplied to fit()"),
+            rv, nf.mul(nf.sym("@p0"), curve(nf.div(nf.sym("@x"), wantT))),
         )
         # first guess roles
         if isinstance(raw_guess, TupV):
@@ -174,7 +167,7 @@ def check(ctx):
             okT = st.get("tau_") is not None and it.to_nf(st["tau_"]) == nf.sym("tau")
             ctx.check(okT, "C05-g", m.qualname + f":tau returned unchanged [{tag}]", m.where(), "with a supplied tau, tau_ is exactly that value", signature="tau_", tau_=nf.show(it.to_nf(st.get("tau_")), 80) if st.get("tau_") is not None else "unset")
             ctx.check(fit_elem(st.get("M_")) == 0, "C05-g", m.qualname + f":M from the bounded fit [{tag}]", m.where(), "with a supplied tau, M_ is the (only) fitted parameter", signature="M_")
-    ctx.floor("C05-b", n_calls, 3, "call sites of the scaling law")
+    ctx.floor("C05-b", n_calls, 6, "evaluations of the scaling law (forecast_cum arms and fitted models)")
 
     # ---- C05-c Bounds validation
     post = bc.lookup("__post_init__")
